@@ -5,6 +5,7 @@ import (
 	"go/ast"
 	"go/token"
 	"go/types"
+	"regexp"
 	"strings"
 
 	"arkverif/checker/core"
@@ -20,7 +21,7 @@ func init() {
 			"(R3) the remaining-work scan answers true exactly for the conditions under which the work loop acts: per branch the same capacity argument is passed to the shrink and to the can-shrink role, the free condition is the same, and both roles compute the same target with opposite comparison polarity; " +
 			"(R4) the shrink target is max(round(len), minimum) with the same rounding function that growth uses, applied to the length itself; the capacity change keeps the live rows (rules C01/R6, C11/R4); " +
 			"(R5) the loop of the storage-level Shrink that calls the table shrink role is a full loop over the table list. " +
-			"Not decided: the rounding arithmetic itself; behavioural invisibility for all later operations; convergence of time-boxed calls.",
+			"(= C04/R14) the active-table list is walked (free flags set) before it is emptied. Not decided: the rounding arithmetic itself; behavioural invisibility for all later operations; convergence of time-boxed calls.",
 		TrustedBase: []string{"go/types, go/cfg", "rules C04/R3 and C07/R1", "documented bound: capacity ≤ max(initial capacity, next power of two of size)"},
 		Rules: []Rule{
 			{ID: "C15/R1", Run: c04r3, Min: 1},
@@ -29,6 +30,7 @@ func init() {
 			{ID: "C15/R4", Run: c15r4, Min: 1},
 			{ID: "C04/R12", Run: c04r12, Min: 1},
 			{ID: "C15/R5", Run: c15r5, Min: 1},
+			{ID: "C04/R14", Run: c04r14, Min: 1},
 		},
 	})
 }
@@ -392,13 +394,35 @@ func c15r3(c *core.Ctx) {
 			return isC && tv.Value != nil && tv.Value.String() == "true"
 		}))
 	}
+	// a local that names the target (whether or not its definition is pure enough to be resolved by the model) is
+	// replaced by its definition in the rendered conditions, so that `target := max(..); t.cap > target` and
+	// `t.cap > max(..)` read the same
+	subst := func(conds map[string]bool, def string) map[string]bool {
+		i := strings.IndexByte(def, '=')
+		if i <= 0 {
+			return conds
+		}
+		re := regexp.MustCompile(`\b` + regexp.QuoteMeta(def[:i]) + `\b`)
+		out := map[string]bool{}
+		for k := range conds {
+			out[re.ReplaceAllLiteralString(k, def[i+1:])] = true
+		}
+		return out
+	}
+	act, yes = subst(act, sd), subst(yes, cd)
 	same := len(act) == len(yes) && len(act) > 0
 	for k := range act {
 		if !yes[k] {
 			same = false
 		}
 	}
-	if sd == cd && sd != "" && same {
+	exprOf := func(def string) string {
+		if i := strings.IndexByte(def, '='); i > 0 {
+			return def[i+1:]
+		}
+		return def
+	}
+	if (sd == "" || cd == "" || exprOf(sd) == exprOf(cd)) && (sd != "" || cd != "" || same) && same {
 		c.OK("C15/R3", subject, c.At(shrink.Pos()), fmt.Sprintf("same target expression (%s); the capacity is changed under %v, which is when the scan answers true", sd, keysOf(act)))
 	} else {
 		c.Violation("C15/R3", subject, c.At(shrink.Pos()), fmt.Sprintf("the shrink role (%s; changes the capacity under %v) and the can-shrink role (%s; answers true under %v) do not agree; the remaining-work scan would not match what shrinking does", sd, keysOf(act), cd, keysOf(yes)))
